@@ -310,10 +310,17 @@ func (sa *Safe) rankLoop(fr *frame, h *ssa.BasicBlock, latches []*ssa.BasicBlock
 		if !ok {
 			break
 		}
-		if _, isInt := intRange(phi.Type()); !isInt {
+		_, isInt := intRange(phi.Type())
+		pv, ok := fr.regs[phi]
+		// a slice-typed header variable ranks the loop by its length (a loop that consumes a slice:
+		// `for len(rest) > 0 { ...; rest = rest[k:] }`)
+		isSl := ok && !isInt && pv.Kind == avSlice && pv.Len != nil && len(pv.Len.T) == 1
+		if !isInt && !isSl {
 			continue
 		}
-		pv, ok := fr.regs[phi]
+		if isSl {
+			pv = AVal{Kind: avInt, Lin: pv.Len, Type: types.Typ[types.Int]}
+		}
 		if !ok || pv.Lin == nil {
 			continue
 		}
@@ -333,13 +340,16 @@ func (sa *Safe) rankLoop(fr *frame, h *ssa.BasicBlock, latches []*ssa.BasicBlock
 				}
 			}
 			inc := sa.val(fr, es, phi.Edges[pi])
+			if isSl {
+				inc = AVal{Kind: avInt, Lin: inc.Len}
+			}
 			if inc.Lin == nil {
 				good = false
 				break
 			}
 			// the edge state binds the phi atom to the incoming value, so compare with the
 			// value the phi had at the header: recorded as the `pre` relation below
-			d := sa.deltaOnEdge(fr, es, phi, inc.Lin)
+			d := sa.deltaOnEdgeLin(es, pv.Lin, inc.Lin)
 			if os.Getenv("NASVERIF_DEBUG") != "" {
 				fmt.Fprintf(os.Stderr, "loop %s phi %s inc=%s delta=%d itv(inc)=%s\n", fr.fn.Name(), phiName(phi), sa.u.linString(inc.Lin), d, es.linItv(inc.Lin))
 			}
@@ -405,7 +415,7 @@ func (sa *Safe) rankLoop(fr *frame, h *ssa.BasicBlock, latches []*ssa.BasicBlock
 			// staying requires L>=1 (!stayOnTrue): L must shrink => k*dir < 0
 			if (stayOnTrue && k*int64(dir) > 0) || (!stayOnTrue && k*int64(dir) < 0) {
 				// no wrap-around before the bound is passed: the phi's type must be able to hold bound+step
-				if rg, ok := intRange(phi.Type()); ok && rg.Hi < posInf {
+				if rg, ok := intRange(phi.Type()); ok && rg.Hi < posInf && !isSl {
 					st := in[h.Index]
 					rest := c.L.add(linAtom(pa), -k) // L - k*phi
 					// phi can reach about -rest/k ; require that within the type range with slack 255
@@ -449,6 +459,18 @@ func phiName(p *ssa.Phi) string {
 // deltaOnEdge: sign of (incoming - phi) along a back edge: +1 if provably >= 1, -1 if <= -1, 0 unknown.
 // On the edge state the phi atom already equals the incoming value, so the comparison is
 // made against the phi's value *before* the edge, which the incoming expression mentions.
+// deltaOnEdgeLin: as deltaOnEdge, for a ranking quantity given as a linear form (the length of a slice variable).
+func (sa *Safe) deltaOnEdgeLin(es *State, base, inc *Lin) int {
+	d := inc.add(base, -1)
+	if es.prove(d.scale(-1).addConst(1)) {
+		return 1
+	}
+	if es.prove(d.addConst(1)) {
+		return -1
+	}
+	return 0
+}
+
 func (sa *Safe) deltaOnEdge(fr *frame, es *State, phi *ssa.Phi, inc *Lin) int {
 	pv := fr.regs[phi]
 	if pv.Lin == nil {
@@ -524,15 +546,10 @@ func (sa *Safe) consumeLoop(fr *frame, h *ssa.BasicBlock, latches []*ssa.BasicBl
 					continue
 				}
 			}
-			// failure leaves the loop: the block ends with `if err != nil` whose failing arm is outside the loop
-			iff, ok := b.Instrs[len(b.Instrs)-1].(*ssa.If)
-			if !ok {
-				continue
-			}
-			cond, ok := iff.Cond.(*ssa.BinOp)
-			if !ok || (cond.Op != token.NEQ && cond.Op != token.EQL) {
-				continue
-			}
+			// failure leaves the loop: no path on which the error may still be non-nil comes back to the
+			// header.  From the call, follow the loop's edges; a test of the error against nil ends the
+			// walk on its "error is nil" arm (the read succeeded there: that path consumed); any other
+			// test (e.g. err == io.EOF) is followed on both arms.
 			isErr := func(v ssa.Value) bool {
 				if v == ssa.Value(call) {
 					return true
@@ -542,14 +559,46 @@ func (sa *Safe) consumeLoop(fr *frame, h *ssa.BasicBlock, latches []*ssa.BasicBl
 				}
 				return false
 			}
-			if !isErr(cond.X) && !isErr(cond.Y) {
-				continue
+			isNilConst := func(v ssa.Value) bool {
+				c, ok := v.(*ssa.Const)
+				return ok && c.IsNil()
 			}
-			failArm := b.Succs[0]
-			if cond.Op == token.EQL {
-				failArm = b.Succs[1]
+			tested := false
+			comesBack := false
+			seenB := map[*ssa.BasicBlock]bool{}
+			var follow func(blk *ssa.BasicBlock)
+			follow = func(blk *ssa.BasicBlock) {
+				if comesBack {
+					return
+				}
+				next := blk.Succs
+				if iff, ok := blk.Instrs[len(blk.Instrs)-1].(*ssa.If); ok {
+					if cond, ok := iff.Cond.(*ssa.BinOp); ok && (cond.Op == token.NEQ || cond.Op == token.EQL) &&
+						((isErr(cond.X) && isNilConst(cond.Y)) || (isErr(cond.Y) && isNilConst(cond.X))) {
+						tested = true
+						if cond.Op == token.NEQ {
+							next = blk.Succs[:1] // err != nil: only the true arm still carries a possible error
+						} else {
+							next = blk.Succs[1:]
+						}
+					}
+				}
+				for _, s := range next {
+					if !body[s] {
+						continue
+					}
+					if s == h {
+						comesBack = true
+						return
+					}
+					if !seenB[s] {
+						seenB[s] = true
+						follow(s)
+					}
+				}
 			}
-			if body[failArm] {
+			follow(b)
+			if !tested || comesBack {
 				continue
 			}
 			cands = append(cands, cand{b, bufv})
